@@ -215,7 +215,11 @@ class Native:
                 if not ev(code):
                     return ("precondition-false", src)
         raise_expect = {}
+        may_raise = set()
         for exc, src in (con.get("raises") or {}).items():
+            if src is None:
+                may_raise.add(exc)          # "may raise": no condition stated, any outcome of that kind is accepted
+                continue
             code, _ = self.compile(src, cname)
             raise_expect[exc] = bool(ev(code))
         must_raise = {}
@@ -250,6 +254,8 @@ class Native:
             for exc, expected in must_raise.items():
                 if expected:
                     raise ContractViolation(key, "raises_if[%s]/violation_is_rejected" % exc, "returned normally")
+        if outcome != "return" and outcome in may_raise:
+            return (outcome, value)
         if outcome != "return":
             if outcome not in raise_expect:
                 raise ContractViolation(key, "raises[%s]/unexpected" % outcome, repr(value))
